@@ -12,6 +12,7 @@ PROP = {
         ],
         "lanes": [
             native("c05"),
-            miri("c05", seeds_q=0, seeds_t=4, scale=1),
+            # ~0.3 s per evaluation under Miri (measured): 60 guard programs + a third of the macro sites per seed
+            miri("c05", seeds_q=0, seeds_t=4, scale=1, args={"programs": 60}),
         ],
     }
